@@ -16,7 +16,6 @@ def main():
     except (ImportError, ValueError, OSError):
         pass
     sys.path.insert(0, os.path.dirname(os.path.dirname(os.path.abspath(__file__))))
-    sys.setrecursionlimit(10000)
     repo = os.environ.get("VERIF_REPO", "/repo")
     import pdpy11
     if not os.path.abspath(pdpy11.__file__).startswith(os.path.abspath(repo) + os.sep):
